@@ -139,6 +139,8 @@ def run(tier, seed, replay=None):
                  + [("x1", "(case x1 unsub_race %d)" % (10 if tier == "quick" else 60), {"kind": "threads", "op": "subscribe_on", "how": "pool"})])
     res = correspond(rep, "C02", cases, "C02 (silence after unsubscribe: timed_ok / cut specifications / silent_after_unsub)")
     xcheck.cross_check(rep, "C02", cases, res, 40 if tier == "quick" else 400)
+    if not replay:
+        real_timer_cases(rep, "C02 (unsubscribe() against an item in flight on another thread, real timers)", which="races")
     c = rep.coverage
     hist = {}
     for _, _, t in cases:
